@@ -51,8 +51,10 @@ class Linop:
     """
 
     def __init__(self, oshape, ishape, repr_str=None):
-        self.oshape = list(oshape)
-        self.ishape = list(ishape)
+        # Python ints: arithmetic on shapes must not inherit the width of
+        # NumPy integers the caller happened to use.
+        self.oshape = [int(s) for s in oshape]
+        self.ishape = [int(s) for s in ishape]
 
         _check_shape_positive(oshape)
         _check_shape_positive(ishape)
